@@ -28,7 +28,7 @@ NEEDS = json.load(open(os.path.join(ROOT, "tools", "seeded_needs.json"))) if os.
 index = []
 for d in sorted(glob.glob(os.path.join(RAW, "*", "m*"))):
     pdir = os.path.basename(os.path.dirname(d))
-    pid = pdir.rstrip("b")  # third-wave directories are named <PID>b
+    pid = pdir.rstrip("bc")  # third-wave directories are named <PID>b, fourth-wave <PID>c
     mn = os.path.basename(d)
     key = "%s/%s" % (pdir, mn)
     cf = os.path.join(d, "confirm.json")
